@@ -90,3 +90,19 @@ sh('sh_code_after_end_label', ['a%'],
    [('if1', B('>', var('a%'), I(0)), [('goto', 'late')], None),
     P(S('early')), ('end',),
     ('label', 'late'), P(S('late'))])
+
+# procedures defined ABOVE the module-level code: code address order then
+# differs from source order (module-level code is always emitted first)
+sh('sh_procs_first', ['a%'],
+   [P(S('start')),
+    ('callsub', 'show', [var('a%')]),
+    ('gosub', 'tail'),
+    P(('call', 'inc%', [var('a%')])),
+    ('if1', B('>', var('a%'), I(0)), [P(S('pos'))], [P(S('nonpos'))]),
+    P(S('end')), ('end',),
+    ('label', 'tail'), P(S('tail')), ('return',)],
+   subs=[Sub('show', 'sub', [('v%', None)],
+             [P(S('show')), P(var('v%'))]),
+         Sub('inc%', 'function', [('v%', None)],
+             [('setret', B('+', B('MOD', var('v%'), I(100)), I(1)))])],
+   subs_first=True, budget=600)
